@@ -92,7 +92,7 @@ func cmdCheck(args []string) int {
 	}
 	scratch, _ := os.MkdirTemp("", "govc")
 	defer os.RemoveAll(scratch)
-	replayDir := filepath.Join(verifDir, "replays", id)
+	replayDir := filepath.Join(outDir(), "replays", id)
 	os.RemoveAll(replayDir)
 
 	w, err := loadWorld(prop.Packages)
@@ -382,7 +382,7 @@ func finish(id, tier string, seed int, t0 time.Time, prop *PropSpec, all []*Obli
 	sort.Strings(as)
 	if prop.MinObl > 0 {
 		if n, _ := cov["obligations"].(int); n < prop.MinObl && len(violations) == 0 {
-			rp := writeReplay(filepath.Join(verifDir, "replays", id), "vacuity.obligation-count", map[string]interface{}{"property": id, "obligation": "vacuity#obligation-count", "have": n, "floor": prop.MinObl, "status": "no-model"})
+			rp := writeReplay(filepath.Join(outDir(), "replays", id), "vacuity.obligation-count", map[string]interface{}{"property": id, "obligation": "vacuity#obligation-count", "have": n, "floor": prop.MinObl, "status": "no-model"})
 			violations = append(violations, violation{obl: "vacuity#obligation-count", replay: rp, noInput: true})
 		}
 	}
@@ -394,9 +394,9 @@ func finish(id, tier string, seed int, t0 time.Time, prop *PropSpec, all []*Obli
 	evid["assumptions"] = as
 	evid["wall_s"] = round3(time.Since(t0).Seconds())
 	evid["violations"] = len(violations)
-	os.MkdirAll(filepath.Join(verifDir, "evidence"), 0o755)
+	os.MkdirAll(filepath.Join(outDir(), "evidence"), 0o755)
 	b, _ := json.MarshalIndent(evid, "", " ")
-	os.WriteFile(filepath.Join(verifDir, "evidence", id+".json"), b, 0o644)
+	os.WriteFile(filepath.Join(outDir(), "evidence", id+".json"), b, 0o644)
 	for _, k := range knownLines {
 		fmt.Println(k)
 	}
